@@ -143,7 +143,10 @@ pub fn check_readback(case: &MuxCase, run: &MuxRun<Cursor<Vec<u8>>>, bytes: &[u8
 }
 
 pub fn oracle(ctx: &mut Ctx, case: &MuxCase) -> Check {
-    if case.sink != 0 {
+    if case.sink >> 16 != 0 {
+        ctx.count("sink:stale-bytes-behind-the-start(pre-sized/re-used buffer)");
+    }
+    if case.sink & 0xfff != 0 {
         ctx.count("sink:short-writes");
     }
     let (run, bytes) = mux::run_mux_vec(case);
@@ -235,7 +238,7 @@ pub fn run_histories(ctx: &mut Ctx, oracle: fn(&mut Ctx, &MuxCase) -> Check) {
                 ops.push(alphabet[(c % a) as usize].clone());
                 c /= a;
             }
-            let case = MuxCase { major: *b"isom", minor: 512, compat: vec![*b"isom"], timescale: 3, tracks: enum_tracks(), ops, sink: if my % 11 == 4 { 1 + (my % 9) as u16 } else { 0 } };
+            let case = MuxCase { major: *b"isom", minor: 512, compat: vec![*b"isom"], timescale: 3, tracks: enum_tracks(), ops, sink: if my % 11 == 4 { 1 + (my % 9) as u32 } else if my % 13 == 5 { (7 + (my % 400) as u32) << 16 } else { 0 } };
             let res = oracle(ctx, &case);
             ctx.judge(&case, res);
         }
